@@ -13,7 +13,7 @@ RULE = ("Named sets of 2..150 sequences (quick; thorough up to 400) on both side
         "identical in both runs, rows in each run's own input order. Non-trivial = permutation != identity, >= 3 sequences, "
         "gaps present; distinct by hash of the case.")
 ASSUMPTIONS = ["names pairwise distinct within their first 255 characters (the library compares MSA_NAME_LEN characters)"]
-BUDGET = {"quick": dict(examples=120, workers=12, seconds=75), "thorough": dict(examples=1000, workers=16, seconds=600)}
+BUDGET = {"quick": dict(examples=500, workers=12, seconds=75), "thorough": dict(examples=1000, workers=16, seconds=600)}
 
 
 @st.composite
